@@ -19,6 +19,8 @@ Decided clauses (DESIGN §4 C02):
        once, completely (PUBLICKEYBYTES) and in parameter order (ephemeral key first), and seal / seal_open hand it
        (ephemeral public key, recipient public key). X25519 ignores bit 255 of the ephemeral key; only the nonce
        authenticates it, so a derivation that skips the ephemeral key makes an altered sealed box open.
+  R2.10 secretstream header: after init_pull / init_push the state's key is HChaCha20 over header[0..16) and its inonce is a verbatim
+       copy of header[16..24) (byte provenance, C09 R9.6), so no header byte is outside what authenticates the chunks.
 NOT decided: that a changed bit changes the recomputed tag (MAC arithmetic).
 """
 import re
@@ -222,6 +224,26 @@ def run(ctx, chk):
     # loop that walks an input buffer no read through that buffer may have a loop-invariant address (E15) - such a read takes
     # the bytes of the first iteration again and the bytes of the later iterations never reach the authenticator.
     seal_nonce_rule(prog, chk)
+    # R2.10: "changing any bit of the header makes the call fail": the secretstream state after init depends on every header byte
+    # (C09's R9.6 / R9.7 engine - byte provenance of the state - reported here for the header clause)
+    from . import c09
+    from .. import inline
+
+    class _Renamed:
+        def __init__(self, inner):
+            self._c = inner
+
+        def ob(self, rule, *a, **kw):
+            if "key" in kw and kw["key"]:
+                kw["key"] = "R2.10/" + kw["key"]
+            return self._c.ob("R2.10/" + rule, *a, **kw)
+
+        def floor(self, rule, *a, **kw):
+            return self._c.floor("R2.10/" + rule, *a, **kw)
+
+        def __getattr__(self, n):
+            return getattr(self._c, n)
+    c09.layout_rule(ctx, prog, _Renamed(chk), inline.inlined(prog, prog.need("crypto_secretstream_xchacha20poly1305_push", rule="R2.10")))
     from .. import loopinv
     loopinv.stuck_read_rule(prog, chk, "R2.8", ("crypto_aead/", "crypto_onetimeauth/", "crypto_auth/", "crypto_secretbox/",
                                                 "crypto_box/", "crypto_secretstream/"), floor=20 if prog.config == "native" else 5)
